@@ -27,6 +27,10 @@ func StartLocalNode(e *Env, name string, mod func(o *gen.NodeOptions)) gen.Node 
 	if mod != nil {
 		mod(&o)
 	}
+	if netlog {
+		o.Log.Level = gen.LogLevelTrace
+		o.Log.Loggers = append(o.Log.Loggers, gen.Logger{Name: "simdebug", Logger: &debugLogger{e: e, node: name}})
+	}
 	n, err := node.Start(gen.Atom(name), o, SimVersion)
 	if err != nil {
 		e.Infra("node.Start: " + err.Error())
@@ -139,3 +143,21 @@ func (e *Env) InternalPanics() []string {
 	defer e.mu.Unlock()
 	return append([]string(nil), e.internalPanics...)
 }
+
+type debugLogger struct {
+	e    *Env
+	node string
+}
+
+func (l *debugLogger) Log(m gen.MessageLog) {
+	if _, ok := m.Source.(gen.MessageLogNetwork); !ok {
+		if _, ok := m.Source.(gen.MessageLogNode); !ok {
+			return
+		}
+	}
+	s := fmt.Sprintf(m.Format, m.Args...)
+	if strings.Contains(s, "connect") || strings.Contains(s, "join") || strings.Contains(s, "handshake") || strings.Contains(s, "link") || strings.Contains(s, "dial") {
+		l.e.Logf("log %s: %s", l.node, s)
+	}
+}
+func (l *debugLogger) Terminate() {}
